@@ -45,7 +45,6 @@ int snoopy_cli_action_disable ()
     size_t newEtcLdSoPreloadContentLengthMax;
     unsigned int copyLength;
     const char * entryPtr = NULL;
-    char * entryLine = NULL;
     const char * srcPosPtr = 0;
     char * destPosPtr = 0;
     const char * foundStringPos1 = NULL;
@@ -92,16 +91,22 @@ int snoopy_cli_action_disable ()
     copyLength = (unsigned int) (entryPtr - srcPosPtr);
     strncpy(destPosPtr, srcPosPtr, copyLength);
 
-    // Skip the entry line we're removing, copy the rest
+    // Skip the entry we're removing (plus trailing whitespace and comment, if any), copy the rest.
+    // The rest of the line is only dropped if nothing else is listed on it - other libraries that
+    // share the line with our entry must stay.
     destPosPtr = newEtcLdSoPreloadContent + copyLength;
-    entryLine  = snoopy_util_string_copyLineFromContent(entryPtr);
-    srcPosPtr  = entryPtr + strlen(entryLine);
-    copyLength = (unsigned int) (strlen(curEtcLdSoPreloadContent) - (entryPtr - curEtcLdSoPreloadContent) - strlen(entryLine));
+    srcPosPtr  = entryPtr + strlen(libsnoopySoPath);
+    while ((*srcPosPtr == ' ') || (*srcPosPtr == '\t')) {
+        srcPosPtr++;
+    }
+    if (*srcPosPtr == '#') {
+        srcPosPtr += snoopy_util_string_getLineLength(srcPosPtr);
+    }
     if (*srcPosPtr == '\n') {
         srcPosPtr++;
-        copyLength--;
     }
-    strncpy(destPosPtr, srcPosPtr, copyLength);
+    copyLength = (unsigned int) strlen(srcPosPtr);
+    memcpy(destPosPtr, srcPosPtr, copyLength);
 
     destPosPtr += copyLength;
     *destPosPtr = '\0';
@@ -123,6 +128,5 @@ int snoopy_cli_action_disable ()
 
     free(curEtcLdSoPreloadContent);
     free(newEtcLdSoPreloadContent);
-    free(entryLine);
     return 0;
 }
